@@ -1,10 +1,13 @@
 import BppModel.Proto
 import BppModel.Drive.C01
 import BppModel.Drive.C02
+import BppModel.Drive.C03
+import BppModel.Drive.C04
 import BppModel.Drive.C05
 import BppModel.Drive.C06
 import BppModel.Drive.C07
 import BppModel.Drive.C08
+import BppModel.Drive.C10
 import BppModel.Drive.C11
 import BppModel.Drive.C12
 import BppModel.Drive.C13
@@ -20,10 +23,13 @@ def main (args : List String) : IO UInt32 := do
   match args with
   | ["C01"] => Proto.run Drive.C01.machine; return 0
   | ["C02"] => Proto.run Drive.C02.machine; return 0
+  | ["C03"] => Proto.run Drive.C03.machine; return 0
+  | ["C04"] => Proto.run Drive.C04.machine; return 0
   | ["C05"] => Proto.run Drive.C05.machine; return 0
   | ["C06"] => Proto.run Drive.C06.machine; return 0
   | ["C07"] => Proto.run Drive.C07.machine; return 0
   | ["C08"] => Proto.run Drive.C08.machine; return 0
+  | ["C10"] => Proto.run Drive.C10.machine; return 0
   | ["C11"] => Proto.run Drive.C11.machine; return 0
   | ["C12"] => Proto.run Drive.C12.machine; return 0
   | ["C13"] => Proto.run Drive.C13.machine; return 0
